@@ -18,6 +18,7 @@
 #include <cmath>
 #include <memory>
 #include <functional>
+#include <cstdlib>
 
 using namespace shark;
 
@@ -68,6 +69,40 @@ struct HMatrix{
 	void setMaxCachedIndex(std::size_t){}
 };
 
+// ---------------------------------------------------------------- coverage counters (printed to stderr at exit)
+// measured by the harness on the REAL objects; the check script asserts that the histories the clause
+// "shrinking removes only variables that cannot improve the objective" quantifies over are reached
+struct Coverage{
+	unsigned long long shrinkCalls = 0, shrinkCallsRemoving = 0, removedVars = 0;
+	unsigned long long shrinkInSolve = 0;
+	unsigned long long internalUnshrink = 0;            // shrink() un-shrank a really shrunk problem first
+	unsigned long long internalUnshrinkInSolve = 0;
+	unsigned long long unshrinkThresholdsDiffer = 0;    // ... and a re-activated variable moved largestUp / smallestDown
+	unsigned long long unshrinkDiscriminating = 0;      // ... and the thresholds of the formerly active variables alone
+	                                                    //     would have removed a different set of variables
+	unsigned long long unshrinkDiscriminatingSvm = 0, unshrinkDiscriminatingBox = 0, unshrinkDiscriminatingInSolve = 0;
+	unsigned long long unshrinkViolatorKept = 0;        // a re-activated variable stayed active after the re-shrink
+	unsigned long long explicitUnshrinkReal = 0;        // unshrink() with shrunk variables present
+	unsigned long long shrunkBecameViolator = 0;        // unshrink (any) re-activated a variable that can improve the objective
+	unsigned long long smoWhileShrunk = 0;              // SMO steps with active < n
+	unsigned long long shrinkAfterFlagSet = 0;          // shrink() calls that removed variables after the one automatic un-shrink
+} cov;
+static void printCoverage(){
+	std::cerr << "C08COV shrink_calls=" << cov.shrinkCalls << " shrink_calls_removing=" << cov.shrinkCallsRemoving
+		<< " removed_vars=" << cov.removedVars << " shrink_in_solve=" << cov.shrinkInSolve
+		<< " internal_unshrink=" << cov.internalUnshrink << " internal_unshrink_in_solve=" << cov.internalUnshrinkInSolve
+		<< " unshrink_thresholds_differ=" << cov.unshrinkThresholdsDiffer
+		<< " unshrink_discriminating=" << cov.unshrinkDiscriminating
+		<< " unshrink_discriminating_svm=" << cov.unshrinkDiscriminatingSvm
+		<< " unshrink_discriminating_box=" << cov.unshrinkDiscriminatingBox
+		<< " unshrink_discriminating_in_solve=" << cov.unshrinkDiscriminatingInSolve
+		<< " unshrink_violator_kept=" << cov.unshrinkViolatorKept
+		<< " explicit_unshrink_real=" << cov.explicitUnshrinkReal
+		<< " shrunk_became_violator=" << cov.shrunkBecameViolator
+		<< " smo_while_shrunk=" << cov.smoWhileShrunk
+		<< " shrink_after_flag_set=" << cov.shrinkAfterFlagSet << "\n";
+}
+
 // ---------------------------------------------------------------- recording subclass
 struct Oracle;
 template<class Base>
@@ -77,8 +112,10 @@ struct Probe: public Base{
 	std::vector<std::string> events; // recorded during QpSolver::solve
 	bool recording = false;
 	std::function<std::string(std::string const&, double)> after;  // state dump + oracle
+	std::function<void(std::string const&, double)> before;        // snapshot for the oracle (state before the call)
 
 	void updateSMO(std::size_t i, std::size_t j){
+		before("smo", 0);
 		std::feclearexcept(FE_ALL_EXCEPT);
 		Base::updateSMO(i, j);
 		if(std::fetestexcept(FE_INEXACT)) inexact = true;
@@ -87,6 +124,7 @@ struct Probe: public Base{
 		if(recording) events.push_back(os.str() + " " + s);
 	}
 	bool shrink(double eps){
+		before("shrink", eps);
 		std::feclearexcept(FE_ALL_EXCEPT);
 		bool r = Base::shrink(eps);
 		if(std::fetestexcept(FE_INEXACT)) inexact = true;
@@ -95,6 +133,7 @@ struct Probe: public Base{
 		return r;
 	}
 	void unshrink(){
+		before("unshrink", 0);
 		std::feclearexcept(FE_ALL_EXCEPT);
 		Base::unshrink();
 		if(std::fetestexcept(FE_INEXACT)) inexact = true;
@@ -142,7 +181,10 @@ struct Inst: Instance{
 	std::unique_ptr<Prob> p;
 	long double sum0, lastObj, guardSlack; bool haveObj;
 	std::vector<double> lastAlpha;                // by original id
-	std::vector<char> wasActive;                  // by original id, before the current op
+	std::vector<char> wasActive;                  // by original id, before the current call of updateSMO/shrink/unshrink
+	std::size_t activeBefore = 0;                 // active() before the current call
+	bool flagBefore = false, mirrorUn = false, mirrorBefore = false;   // m_isUnshrinked before the call (hook) / the oracle's own mirror of it
+	double luBefore = -1e100, sdBefore = 1e100, epsArg = 0;           // thresholds of the variables active before the call
 	std::string oracleTags;
 
 	// ---------- independent oracle
@@ -162,6 +204,19 @@ struct Inst: Instance{
 	void snapshotActive(){
 		wasActive.assign(n, 0);
 		for(std::size_t a = 0; a != p->active(); ++a) wasActive[p->permutation(a)] = 1;
+	}
+	// state before a call of updateSMO / shrink / unshrink (from an op line or from inside QpSolver::solve)
+	void beforeCall(std::string const& what, double eps){
+		snapshotActive();
+		activeBefore = p->active();
+		flagBefore = p->unshrinked(); mirrorBefore = mirrorUn; epsArg = eps;
+		luBefore = -1e100; sdBefore = 1e100;
+		for(std::size_t a = 0; a != p->active(); ++a){
+			bool lower = p->alpha(a) == L0[p->permutation(a)], upper = p->alpha(a) == U0[p->permutation(a)];
+			if(!lower) sdBefore = std::min(sdBefore, p->gradient(a));
+			if(!upper) luBefore = std::max(luBefore, p->gradient(a));
+		}
+		if(what == "smo" && p->active() < n) ++cov.smoWhileShrunk;
 	}
 	std::string oracle(std::string const& what, double){
 		std::ostringstream os;
@@ -229,26 +284,93 @@ struct Inst: Instance{
 			else if(std::fabs(obj - lastObj) > tol) os << " !oracle objective-changed-by-" << what;
 		}
 		lastObj = obj; haveObj = true;
-		// shrinking removes only variables that cannot improve the objective at this moment
-		if(what == "shrink"){
-			bool reactivated = false;
-			for(std::size_t a = 0; a != p->active(); ++a) if(!wasActive[p->permutation(a)]) reactivated = true;
-			for(std::size_t a = p->active(); a != n; ++a){
-				if(!wasActive[p->permutation(a)] && !reactivated) continue;     // was already shrunk
-				double ga = p->gradient(a);
+		// shrinking removes only variables that cannot improve the objective at this moment.
+		// INDEPENDENT of the implementation's thresholds: the oracle's own gradient lin - K*alpha (long double, own copy
+		// of the data) of ALL variables, the oracle's own notion of "at a bound" (alpha == L / alpha == U).
+		// start set  = the variables the back-to-front loop of this call ran over: the variables active before the call,
+		//              or ALL variables when the call un-shrank first (the one automatic un-shrink);
+		// removed    = start set minus the variables active now.
+		// Clause (theorem shrink_sound, NoGainSvm / NoGainBox at every removal): no removed variable has a feasible
+		// first-order ascending move -- equality-constrained kind: with ANY partner of the start set (the partner was
+		// active when the first of the two was removed); box kind: on its own.
+		if(what == "shrink" || what == "unshrink"){
+			std::vector<long double> G(n), S(n);
+			for(std::size_t a = 0; a != n; ++a){
+				std::size_t o = p->permutation(a);
+				long double g = lin0[o], scale = std::fabs((long double)lin0[o]);
+				for(std::size_t b = 0; b != n; ++b){
+					long double t = (long double)(typename Matrix::QpFloatType)K0[o*n + p->permutation(b)] * (long double)p->alpha(b);
+					g -= t; scale += std::fabs(t);
+				}
+				G[a] = g; S[a] = scale;
+			}
+			bool anyReactivated = false, anyKept = false;
+			for(std::size_t a = 0; a != p->active(); ++a) if(!wasActive[p->permutation(a)]) anyKept = true;
+			bool fired = false;           // did this call really un-shrink (re-activate variables)?
+			if(what == "unshrink") fired = activeBefore < n;
+			else if(p->hasEdge()) fired = activeBefore < n && !flagBefore && p->unshrinked();
+			else fired = anyKept || (activeBefore < n && !mirrorUn && luBefore - sdBefore < 10.0 * epsArg);
+			anyReactivated = fired;
+			if(fired) mirrorUn = true;
+			// thresholds over all variables now (after an un-shrink the maintained gradient of every variable is current)
+			double luAll = -1e100, sdAll = 1e100;
+			for(std::size_t a = 0; a != n; ++a){
 				bool lower = p->alpha(a) == L0[p->permutation(a)], upper = p->alpha(a) == U0[p->permutation(a)];
-				if(lower && upper) continue;
-				if(!eqc){
-					if((lower && ga > 0) || (upper && ga < 0)) os << " !oracle shrunk-could-improve@" << a;
-				}else for(std::size_t b = 0; b != n; ++b){
-					if(b == a) continue;
-					if(!(reactivated || wasActive[p->permutation(b)])) continue;
-					bool bl = p->alpha(b) == L0[p->permutation(b)], bu = p->alpha(b) == U0[p->permutation(b)];
-					// a up / b down has first-order gain g_a - g_b; a down / b up has g_b - g_a
-					if(lower && !bl && ga - p->gradient(b) > 0) os << " !oracle shrunk-could-improve@" << a << "," << b;
-					if(upper && !bu && p->gradient(b) - ga > 0) os << " !oracle shrunk-could-improve@" << a << "," << b;
+				if(!lower) sdAll = std::min(sdAll, p->gradient(a));
+				if(!upper) luAll = std::max(luAll, p->gradient(a));
+			}
+			if(what == "unshrink"){
+				if(fired){
+					++cov.explicitUnshrinkReal;
+					if(luAll != luBefore || sdAll != sdBefore) ++cov.shrunkBecameViolator;
+				}
+			}else{
+				++cov.shrinkCalls; if(p->recording) ++cov.shrinkInSolve;
+				std::size_t removed = 0;
+				for(std::size_t a = p->active(); a != n; ++a){
+					if(!(fired || wasActive[p->permutation(a)])) continue;     // shrunk by an earlier call, not looked at by this one
+					++removed;
+					bool lower = p->alpha(a) == L0[p->permutation(a)], upper = p->alpha(a) == U0[p->permutation(a)];
+					if(lower && upper) continue;                               // L == U: cannot move at all
+					bool aUp = !upper, aDown = !lower;
+					if(!eqc){
+						long double tol = exact ? 0 : 1e-9L * (1 + S[a]);
+						if((aUp && G[a] > tol) || (aDown && G[a] < -tol)) os << " !oracle shrunk-could-improve@" << a;
+					}else for(std::size_t b = 0; b != n; ++b){
+						if(b == a) continue;
+						if(!(fired || wasActive[p->permutation(b)])) continue;
+						bool bl = p->alpha(b) == L0[p->permutation(b)], bu = p->alpha(b) == U0[p->permutation(b)];
+						long double tol = exact ? 0 : 1e-9L * (1 + S[a] + S[b]);
+						// a up / b down has first-order gain g_a - g_b; a down / b up has g_b - g_a
+						if(aUp && !bl && G[a] - G[b] > tol) os << " !oracle shrunk-could-improve@" << a << "," << b;
+						if(aDown && !bu && G[b] - G[a] > tol) os << " !oracle shrunk-could-improve@" << a << "," << b;
+					}
+				}
+				if(removed){ ++cov.shrinkCallsRemoving; cov.removedVars += removed; if(flagBefore || mirrorBefore) ++cov.shrinkAfterFlagSet; }
+				if(fired){
+					++cov.internalUnshrink; if(p->recording) ++cov.internalUnshrinkInSolve;
+					if(anyKept) ++cov.unshrinkViolatorKept;
+					if(luAll != luBefore || sdAll != sdBefore){
+						++cov.unshrinkThresholdsDiffer; ++cov.shrunkBecameViolator;
+						// would the thresholds of the formerly active variables alone have removed a different set?
+						bool differs = false;
+						for(std::size_t a = 0; a != n && !differs; ++a){
+							bool lower = p->alpha(a) == L0[p->permutation(a)], upper = p->alpha(a) == U0[p->permutation(a)];
+							double ga = p->gradient(a);
+							double sdF = eqc ? sdAll : std::min(sdAll, 0.0), luF = eqc ? luAll : std::max(luAll, 0.0);
+							double sdS = eqc ? sdBefore : std::min(sdBefore, 0.0), luS = eqc ? luBefore : std::max(luBefore, 0.0);
+							bool tF = (lower && ga < sdF) || (upper && ga > luF);
+							bool tS = (lower && ga < sdS) || (upper && ga > luS);
+							if(tF != tS) differs = true;
+						}
+						if(differs){
+							++cov.unshrinkDiscriminating; (eqc ? cov.unshrinkDiscriminatingSvm : cov.unshrinkDiscriminatingBox)++;
+							if(p->recording) ++cov.unshrinkDiscriminatingInSolve;
+						}
+					}
 				}
 			}
+			(void)anyReactivated;
 		}
 		return os.str();
 	}
@@ -301,6 +423,7 @@ struct Inst: Instance{
 		gqp.reset(new GQP(*mat));
 		for(std::size_t i = 0; i != n; ++i){ gqp->linear(i) = lin0[i]; gqp->boxMin(i) = L0[i]; gqp->boxMax(i) = U0[i]; }
 		p.reset(new Prob(*gqp, shrinkOn));
+		p->before = [this](std::string const& what, double eps){ beforeCall(what, eps); };
 		p->after = [this](std::string const& what, double eps){
 			std::string o = oracle(what, eps);
 			std::string s = state();
@@ -329,6 +452,17 @@ struct Inst: Instance{
 		double v = s(*p, i, j);
 		std::ostringstream os; os << "sel " << i << " " << j << " " << tok(v);
 		return os.str();
+	}
+	// one solver-style step: working set chosen by the REAL selection criterion, then updateSMO -- QpSolver's step
+	// without its shrinking schedule, so that the op sequence decides when shrink()/unshrink() happen
+	template<class Strategy>
+	std::string selectStep(){
+		Strategy s; std::size_t i = 0, j = 0;
+		double v = s(*p, i, j);
+		if(!(v > 0)) return "skip " + state() + suffix();
+		p->updateSMO(i, j);
+		std::ostringstream os; os << "smo " << i << " " << j << " ";
+		return os.str() + state() + suffix();
 	}
 	template<class Strategy>
 	std::string solve(double eps, unsigned long long maxit){
@@ -381,10 +515,19 @@ struct Inst: Instance{
 			if(t[1] == "libsvm") return select<LibSVMSelectionCriterion>();
 			return select<MaximumGainCriterion>();
 		}
+		if(o == "ssmo" && t.size() == 2){
+			if(p->active() == 0) return "skip " + state() + suffix();
+			if(t[1] == "mvp") return selectStep<MVPSelectionCriterion>();
+			if(t[1] == "libsvm") return selectStep<LibSVMSelectionCriterion>();
+			return selectStep<MaximumGainCriterion>();
+		}
 		if(o == "solve" && t.size() == 4){
 			double eps = untok(t[2]); unsigned long long maxit = std::stoull(t[3]);
 			if(t[1] == "mvp") return solve<MVPSelectionCriterion>(eps, maxit);
 			if(t[1] == "libsvm") return solve<LibSVMSelectionCriterion>(eps, maxit);
+			// hybrid maximum gain: stateful (last working set survives shrink()'s flips until reset()); not modelled in
+			// Lean -- such ops are run against the oracle alone (checks/c08.py, K-C08[hmg])
+			if(t[1] == "hmg") return eqc ? solve<HMGSelectionCriterion>(eps, maxit) : std::string("bad-op");
 			return solve<MaximumGainCriterion>(eps, maxit);
 		}
 		return "bad-op";
@@ -409,6 +552,7 @@ int main(int argc, char** argv){
 #endif
 		return 0;
 	}
+	std::atexit(printCoverage);
 	std::unique_ptr<Instance> inst;
 	std::string line;
 	while(std::getline(std::cin, line)){
